@@ -129,6 +129,8 @@ fn store_race(mut seed: u64) {
     let _ = rng(&mut seed);
     c.wait().unwrap();
     c.close().unwrap();
+    drop(c);
+    workers_gone();
 }
 
 /// C12 / C10: build, use, close or drop; Miri reports threads still running at exit, leaks, deadlock
@@ -162,7 +164,13 @@ fn lifecycle(mut seed: u64) {
         }
         drop(c);
     }
-    // give the workers of the dropped cache the chance to notice the disconnected channels
+    workers_gone();
+}
+
+/// close() (or dropping the last handle) need not wait for the background workers: wait for their
+/// guards to be dropped before the main thread returns (Miri reports threads that are still running).
+fn workers_gone() {
+    // give the workers of a dropped cache the chance to notice the disconnected channels
     for _ in 0..200 {
         std::thread::yield_now();
     }
@@ -173,6 +181,10 @@ fn lifecycle(mut seed: u64) {
             break;
         }
         assert!(t0.elapsed() < Duration::from_secs(120), "workers did not exit: {c:?}");
+        std::thread::yield_now();
+    }
+    // the guards are dropped just before the worker closures return
+    for _ in 0..200 {
         std::thread::yield_now();
     }
 }
